@@ -349,6 +349,49 @@ def check_space_written(ctx):
             "xml:space: " + "; ".join(wrong) + " - the element reads back with the wrong white-space handling")
 
 
+def check_cell_resolution_written(ctx):
+  """FIN-cellres: ttp:cellResolution is written unless the document's value is the TTML default of
+  32 columns by 15 rows (the reader assumes the default when the attribute is absent)."""
+  from ..consteval import NotConst
+  from ..rules.isdrules import substitute
+  ix = ctx.ix
+  f = ix.func("ttconv.imsc.elements:TTElement.from_model")
+  ctx.unit(f.module)
+  guards = [n for n in own_nodes(f.node) if isinstance(n, ast.If) and any(isinstance(c, ast.Call) and unparse(c.func).endswith("CellResolutionAttribute.set") for st in n.body for c in ast.walk(st))]
+  if len(guards) != 1:
+    raise AnalysisError(f"{f.qualname}: expected one guarded CellResolutionAttribute.set call, found {len(guards)}")
+  g = guards[0]
+  getter = None
+  for c in ast.walk(g.test):
+    if isinstance(c, ast.Call) and isinstance(c.func, ast.Attribute) and c.func.attr == "get_cell_resolution":
+      getter = unparse(c)
+  if getter is None:
+    raise AnalysisError(f"{f.qualname}: the cell-resolution guard does not read get_cell_resolution()")
+  ce = ConstEval(ix, symbolic_ok=False)
+  t = g.test
+  wrong = []
+  if isinstance(t, ast.Compare) and len(t.ops) == 1 and isinstance(t.ops[0], (ast.NotEq, ast.Eq)) and unparse(t.left) == getter and isinstance(t.comparators[0], ast.Call) \
+      and unparse(t.comparators[0].func).endswith("CellResolutionType"):
+    kw = {k.arg: ce.try_ev(f.module, k.value) for k in t.comparators[0].keywords}
+    if isinstance(t.ops[0], ast.Eq) or kw != {"rows": 15, "columns": 32}:
+      wrong.append(f"the guard compares with {kw} using {type(t.ops[0]).__name__}")
+    n = 1
+  else:
+    test = substitute(t, {f"{getter}.rows": "__r", f"{getter}.columns": "__c"})
+    n = 0
+    for r in (15, 20):
+      for c in (32, 40):
+        try:
+          got = bool(ce.ev(f.module, test, None, {"__r": r, "__c": c}))
+        except (NotConst, TypeError) as e:
+          raise AnalysisError(f"{f.qualname}: the cell-resolution guard `{short(t, 70)}` leaves the evaluable subset ({e})")
+        n += 1
+        if got != ((r, c) != (15, 32)):
+          wrong.append(f"{c} columns x {r} rows: written={got}")
+  ctx.check(not wrong, "FIN-cellres", f"{f.qualname}|ttp:cellResolution is written unless it is 32 x 15", ctx.where(f.module, g), f"{n} case(s)",
+            "ttp:cellResolution: " + "; ".join(wrong) + " - the reader assumes 32 x 15 when the attribute is absent, so cell lengths change")
+
+
 def check_special_emission(ctx):
   """SPECIAL-emit: a writer emits the keyword of a special value ("none", "normal") only for that
   special value: under an identity test with SpecialValues.<keyword> (or, for component-wise
@@ -437,6 +480,10 @@ def run(ctx):
   check_px_scan(ctx)
   check_special_emission(ctx)
   check_space_written(ctx)
+  check_cell_resolution_written(ctx)
+  # frames / clock-time-with-frames syntaxes rest on SmpteTimeCode.from_frames
+  from . import c12 as _c12
+  _c12.check_drop_frame_labels(ctx)
   fs = common.funcs(ctx, ["ttconv.time_code"]) + [ix.func("ttconv.imsc.attributes:to_time_format")]
   n = exa.check_exactness(ctx, fs, rule="EXA", exempt=common.EXA_EXEMPT, trunc_scope=common.time_trunc_scope(ctx))
   ctx.floor("EXA", "truncation sinks on the writer's time path", n, 10)
